@@ -490,6 +490,23 @@ macro_rules! group_impl {
                                     let r: $proj = ctx.scalar(k).base(b);
                                     outs.push(show_jac(&r));
                                 }
+                                ("bsh", 4) => {
+                                    let b = parse_jac(p[1])?;
+                                    let n = parse_usize(p[2])?;
+                                    let k = scalar(p[3])?;
+                                    let w = ctx.base(b, n);
+                                    let mut sh = w.shared();
+                                    let r: $proj = sh.scalar(k);
+                                    outs.push(show_jac(&r));
+                                }
+                                ("sbh", 3) => {
+                                    let k = scalar(p[1])?;
+                                    let b = parse_jac(p[2])?;
+                                    let w = ctx.scalar(k);
+                                    let mut sh = w.shared();
+                                    let r: $proj = sh.base(b);
+                                    outs.push(show_jac(&r));
+                                }
                                 _ => return None,
                             }
                         }
@@ -527,6 +544,21 @@ macro_rules! group_impl {
                     ("dec_uu", 1) => match uncomp(&parse_bytes(a[0])?) { Some(e) => show_dec(e.into_affine_unchecked()), None => "ERR:BadLength".to_string() },
                     ("enc_c", 1) => show_bytes($comp::from_affine(parse_aff(a[0])?).as_ref()),
                     ("enc_u", 1) => show_bytes($uncomp::from_affine(parse_aff(a[0])?).as_ref()),
+                    ("intocomp", 1) => show_bytes(parse_aff(a[0])?.into_compressed().as_ref()),
+                    ("intouncomp", 1) => show_bytes(parse_aff(a[0])?.into_uncompressed().as_ref()),
+                    ("jaczero", 0) => show_raw(&$proj::zero()),
+                    ("affzero", 0) => show_aff(&$aff::zero()),
+                    ("affiszero", 1) => show_bool(parse_aff(a[0])?.is_zero()),
+                    ("jaciszero", 1) => show_bool(parse_jac(a[0])?.is_zero()),
+                    ("random", 1) => {
+                        use rand_core::SeedableRng;
+                        let l = parse_limbs(a[0], 2)?;
+                        let mut seed = [0u8; 16];
+                        seed[..8].copy_from_slice(&l[0].to_le_bytes());
+                        seed[8..].copy_from_slice(&l[1].to_le_bytes());
+                        let mut rng = rand_xorshift::XorShiftRng::from_seed(seed);
+                        show_jac(&$proj::random(&mut rng))
+                    }
                     ("ser_aff", 2) => {
                         let mut buf = vec![];
                         parse_aff(a[0])?.serialize(&mut buf, a[1] == "1").ok()?;
@@ -661,6 +693,10 @@ fn hash_op(op: &str, a: &[&str]) -> R {
 fn misc_op(op: &str, a: &[&str]) -> R {
     Some(match (op, a.len()) {
         ("pairing", 2) => Bls12::pairing(g1::parse_aff(a[0])?, g2::parse_aff(a[1])?).show(),
+        ("pairwith1", 2) => g1::parse_aff(a[0])?.pairing_with(&g2::parse_aff(a[1])?).show(),
+        ("pairwith2", 2) => g2::parse_aff(a[1])?.pairing_with(&g1::parse_aff(a[0])?).show(),
+        ("consts", 1) if a[0] == "fq" => format!("{} {} {} {} {} {}", limbs_hex(&Fq::char().0), Fq::NUM_BITS, Fq::CAPACITY, Fq::S, Fq::multiplicative_generator().show(), Fq::root_of_unity().show()),
+        ("consts", 1) if a[0] == "fr" => format!("{} {} {} {} {} {}", limbs_hex(&Fr::char().0), Fr::NUM_BITS, Fr::CAPACITY, Fr::S, Fr::multiplicative_generator().show(), Fr::root_of_unity().show()),
         ("miller", 2) => {
             let mut ps = vec![];
             for t in split_list(a[0]) { ps.push(g1::parse_aff(t)?.prepare()); }
@@ -772,6 +808,10 @@ fn repr_op<T: PrimeFieldRepr>(mk: &dyn Fn(&[u64]) -> T, n: usize, op: &str, a: &
             std::cmp::Ordering::Less => "-1", std::cmp::Ordering::Equal => "0", std::cmp::Ordering::Greater => "1",
         }.to_string(),
         ("from_u64", 1) => show(&T::from(parse_u64(a[0])?)),
+        ("read_be", 1) => { let bs = parse_bytes(a[0])?; let mut x = mk(&vec![0u64; n]); match x.read_be(&bs[..]) { Ok(()) => show(&x), Err(_) => "ERR:eof".to_string() } }
+        ("read_le", 1) => { let bs = parse_bytes(a[0])?; let mut x = mk(&vec![0u64; n]); match x.read_le(&bs[..]) { Ok(()) => show(&x), Err(_) => "ERR:eof".to_string() } }
+        ("write_be", 1) => { let mut buf = vec![]; p(a[0])?.write_be(&mut buf).ok()?; show_bytes(&buf) }
+        ("write_le", 1) => { let mut buf = vec![]; p(a[0])?.write_le(&mut buf).ok()?; show_bytes(&buf) }
         _ => return None,
     })
 }
